@@ -52,6 +52,11 @@ StructFields == [st1  |-> <<[n |-> "f", lts |-> {"p"}]>>,
                  \*                   w: DiplomatOption<DiplomatSlice<'p,u16>>, n: DiplomatOption<u8> } -- optional fields borrow like plain ones
                  sto  |-> <<[n |-> "f", lts |-> {"p"}], [n |-> "s", lts |-> {"p"}], [n |-> "o", lts |-> {"q"}], [n |-> "w", lts |-> {"p"}],
                             [n |-> "n", lts |-> {}]>>]
+\* fields that are themselves borrowing structs: the definition lifetimes OF THE NESTED struct that the outer lifetime l is plugged
+\* into (Nst2<'p,'q> { a: St1<'p>, b: St2<'q,'q> }): what the nested struct keeps alive for those is kept alive for l -- a link per
+\* (outer lifetime, nested argument position), whatever the positions are
+NestedLinks == [nst2 |-> [p |-> {<<"a", "p">>}, q |-> {<<"b", "p">>, <<"b", "q">>}]]
+NestedFor(k, l) == IF k \in DOMAIN NestedLinks THEN NestedLinks[k][l] ELSE {}
 FieldsFor(k, l) == {StructFields[k][i].n : i \in {j \in 1..Len(StructFields[k]) : l \in StructFields[k][j].lts}}
 \* fields that are BUFFERS the binding has to copy into native memory (slices, strings, optional or not): the copy made for a field
 \* whose type mentions lifetime l must live in memory that is released only when everything borrowing for l is gone -- never in the
